@@ -133,10 +133,17 @@ class LiquidError(Exception):
 class LiquidInterrupt(Exception):  # noqa: N818
     """Loop interrupt exception."""
 
-    def __init__(self, *args: object, token: TokenT | None = None):
+    def __init__(
+        self,
+        *args: object,
+        token: TokenT | None = None,
+        template_name: str | None = None,
+    ):
         super().__init__(*args)
-        # The tag that interrupts, for when there is no loop to interrupt.
+        # The tag that interrupts and the template it is in, for when there is no
+        # loop to interrupt.
         self.token = token
+        self.template_name = template_name
 
 
 class StopRender(Exception):  # noqa: N818
